@@ -42,6 +42,8 @@ def items_of(ex, v):
         return v.items
     if isinstance(v, Str):
         return [Int(b, "u8") for b in v.bytes()]
+    if hasattr(v, "lo") and hasattr(v, "hi") and hasattr(v, "ref"):      # mutable sub-slice view
+        return items_of(ex, v.ref)[v.lo:v.hi]
     raise Unsupported("not a sequence: %r" % (v,))
 
 
